@@ -261,7 +261,7 @@ func (x *run) waitAssigned(gen int) {
 			return
 		}
 		if time.Now().After(deadline) {
-			x.c.Inconclusive("splits were not assigned within the watchdog (deploys: %v, job errors: %v)", len(x.cl.Deploys()), x.cl.JobErrors())
+			x.c.Inconclusive("splits were not assigned within the watchdog (deploys: %v, job errors: %v; goroutines: %s)", len(x.cl.Deploys()), x.cl.JobErrors(), lib.BlockedSummary())
 		}
 		time.Sleep(200 * time.Microsecond)
 	}
@@ -271,7 +271,7 @@ func (x *run) waitCaughtUp() {
 	deadline := time.Now().Add(cluster.Watchdog)
 	for !x.src.CaughtUp(func(r *cluster.VReader) bool { return x.cl.ReaderLive(r) }) {
 		if time.Now().After(deadline) {
-			x.c.Inconclusive("readers did not reach the limit within the watchdog (job errors: %v, edge errors: %v)", x.cl.JobErrors(), x.cl.EdgeErrors())
+			x.c.Inconclusive("readers did not reach the limit within the watchdog (job errors: %v, edge errors: %v; goroutines: %s)", x.cl.JobErrors(), x.cl.EdgeErrors(), lib.BlockedSummary())
 		}
 		time.Sleep(200 * time.Microsecond)
 	}
